@@ -98,10 +98,24 @@ def main():
                 len(drift), "; ".join(drift[:12])))
         else:
             res.notes.append("source fingerprints of the functions this property's model mirrors: unchanged")
+        # a check that does not finish is an infrastructure failure (exit 2), never silence: the watchdog thread ends the
+        # process even when the main thread spins inside the code under test
+        import threading
+        budget = 1800 if a.tier == "quick" else 4 * 3600
+
+        def watchdog():
+            print("INFRA-ERROR property=%s: the check did not finish within %d s (the code under test or the harness does not terminate)" % (pid, budget), flush=True)
+            os._exit(2)
+        wd = threading.Timer(budget, watchdog)
+        wd.daemon = True
+        wd.start()
         try:
             mod.run(res, a.tier, build_ok and not drift)
         except Infra:
             raise
+        except common.Stalled as e:
+            res.violation("implementation does not terminate", "a call into the implementation did not return within its wall-clock budget (%s)" % e,
+                          {"stalled": str(e), "traceback": traceback.format_exception(type(e), e, e.__traceback__)[-6:]})
         except Exception as e:
             # an exception escaping from the code under test on an input inside the property's domain
             tb = traceback.extract_tb(e.__traceback__)
